@@ -160,6 +160,14 @@ type Act struct {
 	Out     int    `json:"out,omitempty"`
 	PreOK   bool   `json:"preok,omitempty"`
 	Emitted bool   `json:"emitted,omitempty"`
+	// Facts read off the tracer only (opcode, stack, len(EVM.ETXCache)); never printed into the Coq
+	// term: they feed the model-independent outbound-ETX monitors (etxMonitors).
+	Op      string `json:"op,omitempty"`      // the opcode (or "top") that opened the frame / issued the send
+	Flag    int    `json:"flag,omitempty"`    // word the call-like opcode pushed: 1 = success, 2 = failure (0 pushed), 0 = not observed
+	C0      int    `json:"c0,omitempty"`      // len(EVM.ETXCache) when the opcode was about to execute
+	C1      int    `json:"c1,omitempty"`      // ... at the next opcode of the same frame (-1: not observed)
+	Debited bool   `json:"debited,omitempty"` // send opcode: a SubBalance followed
+	Lockup  bool   `json:"lockup,omitempty"`  // CALL to the lockup contract
 }
 
 type Prim struct {
@@ -207,6 +215,7 @@ type Run struct {
 	selfdOps  int // SELFDESTRUCT opcodes executed (for the pre-fork credit bound)
 	sendOps   int // ETX / CONVERT opcodes executed
 	vmErr     error
+	etxAll    int // len(ExecutionResult.Etxs), every type (TransitionDb dumps EVM.ETXCache into it)
 	etxRealFin []string // balances after the real core.ApplyTransaction (inbound ETX only)
 	etxRealErr string
 }
@@ -470,6 +479,9 @@ func execute(c *Case, extra []common.InternalAddress, logger *log.Logger) (r *Ru
 		return r
 	}
 	r.refctr = statedb.GetRefund()
+	if res != nil {
+		r.etxAll = len(res.Etxs)
+	}
 	o := &r.obs
 	o.Invalid = err != nil
 	if err != nil {
@@ -616,6 +628,23 @@ func (p *parser) frameTail(a *Act, d int, wantCreate bool, moves int) {
 	}
 }
 
+// observe records, for the call-like opcode e that produced action a, what the tracer alone tells
+// about its outcome: the word it pushed (seen on top of the stack at the next opcode of the same
+// frame) and the ETX cache length before and after.
+func (p *parser) observe(a *Act, e *event, d int) {
+	a.Op, a.C0, a.C1, a.Flag = e.op.String(), e.cacheLen, -1, 0
+	if n := p.nextAtDepth(d); n != nil {
+		a.C1 = n.cacheLen
+		if n.kind != evFault && len(n.stack) > 0 {
+			if n.stack[0].Sign() == 0 {
+				a.Flag = 2
+			} else {
+				a.Flag = 1
+			}
+		}
+	}
+}
+
 func (p *parser) nextAtDepth(d int) *event {
 	for j := p.i; j < len(p.ev); j++ {
 		e := &p.ev[j]
@@ -648,6 +677,7 @@ func (p *parser) callAct(from common.Address, toW []byte, v *big.Int, d int) Act
 	if ti, err := to.InternalAndQuaiAddress(); err == nil || to.Equal(lockup) {
 		a.K = "call"
 		a.To = p.r.idx(ti)
+		a.Lockup = to.Equal(lockup)
 		p.frameTail(&a, d, false, 2)
 	} else {
 		a.K = "calletx"
@@ -695,7 +725,9 @@ func (p *parser) ops(d int) []Act {
 		st := e.stack
 		switch e.op {
 		case vm.CALL:
-			acts = append(acts, p.callAct(e.self, word20(st[1]), st[2], d))
+			a := p.callAct(e.self, word20(st[1]), st[2], d)
+			p.observe(&a, e, d)
+			acts = append(acts, a)
 		case vm.CALLCODE, vm.DELEGATECALL, vm.STATICCALL:
 			si, _ := e.self.InternalAndQuaiAddress()
 			a := Act{K: "frame", From: p.r.idx(si), V: "0"}
@@ -704,6 +736,7 @@ func (p *parser) ops(d int) []Act {
 				a.V = st[2].String()
 			}
 			p.frameTail(&a, d, false, 0)
+			p.observe(&a, e, d)
 			acts = append(acts, a)
 		case vm.CREATE, vm.CREATE2:
 			a := p.createAct(e.self, st[0], d)
@@ -713,6 +746,7 @@ func (p *parser) ops(d int) []Act {
 					a.Out = 2
 				}
 			}
+			p.observe(&a, e, d)
 			acts = append(acts, a)
 		case vm.SELFDESTRUCT:
 			si, _ := e.self.InternalAndQuaiAddress()
@@ -730,11 +764,14 @@ func (p *parser) ops(d int) []Act {
 			}
 		case vm.ETX, vm.CONVERT:
 			a := p.sendAct(e)
+			a.Op, a.C0, a.C1 = e.op.String(), e.cacheLen, -1
 			if p.is(evSub) {
 				p.i++
+				a.Debited = true
 			}
 			if n := p.nextAtDepth(d); n != nil {
 				a.Emitted = n.cacheLen == e.cacheLen+1
+				a.C1 = n.cacheLen
 			} else {
 				p.r.anomaly = "no trace entry after a send opcode"
 			}
@@ -830,6 +867,10 @@ func (r *Run) buildTree(msg types.Message, toAddr *common.Address) {
 		}
 		if p.is(evAdd) {
 			p.i++ // refundGas
+		}
+		r.top.Op, r.top.C0, r.top.C1, r.top.Flag = "top", 0, r.etxAll, 1
+		if o.Failed {
+			r.top.Flag = 2
 		}
 	}
 	if p.i != len(p.ev) && r.anomaly == "" && !o.Invalid {
